@@ -233,7 +233,11 @@ func fnKey(fn *ssa.Function) string {
 		}
 		return pkg + "." + t.String() + "." + fn.Name()
 	}
-	return pkg + "." + fn.Name()
+	name := fn.Name()
+	if i := strings.Index(name, "["); i > 0 {
+		name = name[:i] // instantiation of a generic function
+	}
+	return pkg + "." + name
 }
 
 func shortKey(k string) string {
